@@ -10,7 +10,11 @@ def actorNicks : List (Str × Str) :=
   [(s "eve", s "eve!e@evil.host"), (s "bob", s "bob!b@bob.host"), (s "opp", s "opp!o@op.host"),
    (s "adm", s "adm!a@admin.host")]
 
-def cfg : Cfg := { hash := hashStandIn, lower := asciiLower, nicks := actorNicks }
+def cfg0 : Cfg := { hash := hashStandIn, lower := asciiLower, nicks := actorNicks }
+
+structure DSt where
+  cfg : Cfg := cfg0
+  st : St := {}
 
 def encAuth (a : List (Nat × List Str)) : String :=
   let a := a.filter (fun p => !p.2.isEmpty)
@@ -46,24 +50,33 @@ def decCmd : List String → Option Cmd
   | ["configCaps", a] => do pure (.configCaps (← decL "," a))
   | ["flushReload"] => some .flushReload
   | ["reload"] => some .reload
+  | ["flushAll"] => some .flushAll
+  | ["upkeep", b] => do pure (.upkeep (← decB b))
+  | ["chanDisable", a, b, c] => do pure (.chanDisable (← dec a) (← dec b) (← dec c))
+  | ["chanEnable", a, b, c] => do pure (.chanEnable (← dec a) (← dec b) (← dec c))
   | _ => none
 
-def stepD (st : St) : List String → St × String
+def stepD (d : DSt) : List String → DSt × String
+  | ["plugins", tbl] =>
+    -- name=cmd+cmd;name=…
+    match decEntries (decL "+") tbl with
+    | some t => ({ d with cfg := { d.cfg with plugins := t } }, "ok")
+    | none => (d, "bad-op")
   | ["init", us, chans, dflt, reg, flag] =>
     match decUsers us, decChans chans, decL "," dflt, decL "," reg, decB flag with
     | some us, some chans, some dflt, some reg, some flag =>
       let n := us.foldl (fun m p => max m p.1) 0
       let st' : St := flushU { users := us, nextId := n, channels := chans, defaults := dflt, registered := reg, defaultFlag := flag }
-      (st', encSt st')
-    | _, _, _, _, _ => (st, "bad-op")
+      ({ d with st := st' }, encSt st')
+    | _, _, _, _, _ => (d, "bad-op")
   | "cmd" :: pfx :: rest =>
     match dec pfx, decCmd rest with
     | some pfx, some c =>
-      let r := step cfg st pfx c
-      (r.1, encB r.2 ++ "\t" ++ encSt r.1)
-    | _, _ => (st, "bad-op")
-  | ["owners"] => (st, if (owners st).isEmpty then "-" else ",".intercalate ((owners st).map encN))
-  | _ => (st, "bad-op")
+      let r := step d.cfg d.st pfx c
+      ({ d with st := r.1 }, encB r.2 ++ "\t" ++ encSt r.1)
+    | _, _ => (d, "bad-op")
+  | ["owners"] => (d, if (owners d.st).isEmpty then "-" else ",".intercalate ((owners d.st).map encN))
+  | _ => (d, "bad-op")
 
-def handler : Driver.Handler := { σ := St, init := {}, step := stepD }
+def handler : Driver.Handler := { σ := DSt, init := {}, step := stepD }
 end C02
